@@ -29,7 +29,7 @@ CONSTANTS Clients,      \* set of client process names
           PutNil,       \* BOOLEAN: a client may return nil (it closed the resource itself)
           Timeouts      \* BOOLEAN: a blocked get may time out
 
-Procs == Clients \cup {"sweep", "tick", "worker", "setcap", "closer"}
+Procs == Clients \cup {"sweep", "tick", "worker", "setcap", "closer", "factory"}
 Scalers == {"worker", "setcap", "closer"}
 
 VARIABLES pc,         \* label of the next step of every process
@@ -43,18 +43,20 @@ VARIABLES pc,         \* label of the next step of every process
           old, tgt, cnt,   \* per process: oldcap / requested capacity / remaining loop iterations
           rnd,        \* per client: rounds left
           sweepsLeft, ticksLeft, expire, stopSweep, stopTick,
+          lateN,      \* factory calls still in flight whose get already gave up (context expired)
           held,       \* P: set of <<client, resource>> handed out and not yet returned
           panic,      \* P: <<>> or <<process, label, what>> of the first panic
           stale       \* ghost: "" or the first root cause (stale scale-out / overlapping ScaleCapacity) that occurred
 
 vars == <<pc, ch, closed, capacity, available, inUse, baseCap, lock, todo, nextRes, slot, old, tgt, cnt,
-          rnd, sweepsLeft, ticksLeft, expire, stopSweep, stopTick, held, panic, stale>>
+          rnd, sweepsLeft, ticksLeft, expire, stopSweep, stopTick, lateN, held, panic, stale>>
 
 InitPc == [p \in Procs |->
                    IF p \in Clients THEN (IF Rounds > 0 THEN "g1" ELSE "done")
                    ELSE IF p = "sweep" THEN (IF Sweeps > 0 THEN "i0" ELSE "done")
                    ELSE IF p = "tick" THEN (IF Ticks > 0 THEN "t0" ELSE "done")
                    ELSE IF p = "worker" THEN "off"
+                   ELSE IF p = "factory" THEN "f1"
                    ELSE IF p = "setcap" THEN (IF SetCapTo > 0 THEN "c1" ELSE "done")
                    ELSE (IF WithClose THEN "k1" ELSE "done")]
 
@@ -67,7 +69,7 @@ Init == /\ pc = InitPc
         /\ old = [p \in Procs |-> 0] /\ tgt = [p \in Procs |-> 0] /\ cnt = [p \in Procs |-> 0]
         /\ rnd = [c \in Clients |-> Rounds]
         /\ sweepsLeft = Sweeps /\ ticksLeft = Ticks /\ expire = FALSE
-        /\ stopSweep = FALSE /\ stopTick = FALSE
+        /\ stopSweep = FALSE /\ stopTick = FALSE /\ lateN = 0
         /\ held = {} /\ panic = <<>> /\ stale = ""
 
 Goto(p, l) == pc' = [pc EXCEPT ![p] = l]
@@ -77,7 +79,7 @@ Panic(p, what) == /\ panic' = (IF panic = <<>> THEN <<p, pc[p], what>> ELSE pani
 (* unchanged groups *)
 uCtr   == UNCHANGED <<capacity, available, inUse, baseCap>>
 uScale == UNCHANGED <<old, tgt, cnt>>
-uEnv   == UNCHANGED <<sweepsLeft, ticksLeft, expire, stopSweep, stopTick>>
+uEnv   == UNCHANGED <<sweepsLeft, ticksLeft, expire, stopSweep, stopTick, lateN>>
 uGhost == UNCHANGED <<held, panic, stale>>
 
 (* end of one client round (get returned an error, or Put finished) *)
@@ -153,12 +155,21 @@ G7(c, a) ==
         /\ EndRound(c) /\ UNCHANGED <<slot, ch>>                               \* ErrTimeout
   /\ UNCHANGED <<closed, lock, todo, nextRes>> /\ uCtr /\ uScale /\ uEnv /\ uGhost
 
-(* g9: wrapper.resource, err = rp.createResourceWithRetry(ctx)   a = 1: the factory fails *)
+(* g9: wrapper.resource, err = rp.createResourceWithRetry(ctx)   a = 1: the factory fails;                    *)
+(*     a = 2: the caller's context expires while the factory call is still running: get gives up (g10) and the  *)
+(*     factory completes later as a step of the environment (f1); its late result belongs to nobody.            *)
 G9(c, a) ==
   /\ pc[c] = "g9"
-  /\ \/ /\ a = 0 /\ slot' = [slot EXCEPT ![c] = nextRes] /\ nextRes' = nextRes + 1 /\ Goto(c, "g12")
-     \/ /\ a = 1 /\ FactoryFails /\ UNCHANGED <<slot, nextRes>> /\ Goto(c, "g10")
-  /\ UNCHANGED <<ch, closed, lock, todo, rnd>> /\ uCtr /\ uScale /\ uEnv /\ uGhost
+  /\ \/ /\ a = 0 /\ slot' = [slot EXCEPT ![c] = nextRes] /\ nextRes' = nextRes + 1 /\ Goto(c, "g12") /\ UNCHANGED lateN
+     \/ /\ a = 1 /\ FactoryFails /\ UNCHANGED <<slot, nextRes, lateN>> /\ Goto(c, "g10")
+     \/ /\ a = 2 /\ Timeouts /\ lateN' = lateN + 1 /\ UNCHANGED <<slot, nextRes>> /\ Goto(c, "g10")
+  /\ UNCHANGED <<ch, closed, lock, todo, rnd, sweepsLeft, ticksLeft, expire, stopSweep, stopTick>> /\ uCtr /\ uScale /\ uGhost
+
+(* f1: a factory call whose get has given up returns its resource: nobody waits for it, the pool is unaffected *)
+F1(p, a) ==
+  /\ p = "factory" /\ pc[p] = "f1" /\ a = 0 /\ lateN > 0
+  /\ lateN' = lateN - 1 /\ nextRes' = nextRes + 1
+  /\ UNCHANGED <<pc, ch, closed, lock, todo, slot, rnd, sweepsLeft, ticksLeft, expire, stopSweep, stopTick>> /\ uCtr /\ uScale /\ uGhost
 
 (* g10: rp.resources <- resourceWrapper{}; return nil, err *)
 G10(c, a) ==
@@ -296,6 +307,7 @@ T2(p, a) ==
           \/ a = 0 /\ EndTick(p) /\ Goto(p, IF ticksLeft > 1 THEN "t0" ELSE "done")
      ELSE a = 0 /\ EndTick(p) /\ Goto(p, IF ticksLeft > 1 THEN "t0" ELSE "done")
   /\ UNCHANGED <<ch, closed, todo, nextRes, slot, rnd, sweepsLeft, expire, stopSweep, stopTick>> /\ uCtr /\ uScale /\ uGhost
+  /\ UNCHANGED lateN
 
 (* t3: select { case rp.scaleInTodo <- 0: go worker  default: return }  (returning unlocks) *)
 T3(p, a) ==
@@ -304,6 +316,7 @@ T3(p, a) ==
   /\ IF ~todo THEN todo' = TRUE /\ pc' = [pc EXCEPT ![p] = IF ticksLeft > 1 THEN "t0" ELSE "done", !["worker"] = "w1"]
      ELSE UNCHANGED todo /\ Goto(p, IF ticksLeft > 1 THEN "t0" ELSE "done")
   /\ UNCHANGED <<ch, closed, nextRes, slot, rnd, sweepsLeft, expire, stopSweep, stopTick>> /\ uCtr /\ uScale /\ uGhost
+  /\ UNCHANGED lateN
 
 (* w1: rp.ScaleCapacity(int(rp.capacity.Get()) - 1)  (argument evaluation + range check) *)
 W1(p, a) ==
@@ -329,6 +342,7 @@ I0(p, a) ==
   /\ p = "sweep" /\ pc[p] = "i0" /\ ~stopSweep
   /\ expire' = (a = 1) /\ Goto(p, "i1")
   /\ UNCHANGED <<ch, closed, lock, todo, nextRes, slot, rnd, sweepsLeft, ticksLeft, stopSweep, stopTick>> /\ uCtr /\ uScale /\ uGhost
+  /\ UNCHANGED lateN
 
 (* i1: available := int(rp.Available()) *)
 I1(p, a) ==
@@ -336,6 +350,7 @@ I1(p, a) ==
   /\ cnt' = [cnt EXCEPT ![p] = available]
   /\ IF available > 0 THEN Goto(p, "i2") /\ UNCHANGED sweepsLeft ELSE EndSweep(p)
   /\ UNCHANGED <<ch, closed, lock, todo, nextRes, slot, old, tgt, rnd, ticksLeft, expire, stopSweep, stopTick>> /\ uCtr /\ uGhost
+  /\ UNCHANGED lateN
 
 (* i2: select { case wrapper, _ = <-rp.resources: default: return }; close the resource if expired *)
 I2(p, a) ==
@@ -346,6 +361,7 @@ I2(p, a) ==
      ELSE IF closed THEN slot' = [slot EXCEPT ![p] = 0] /\ Goto(p, "i4") /\ UNCHANGED <<ch, sweepsLeft>>
      ELSE EndSweep(p) /\ UNCHANGED <<ch, slot>>
   /\ UNCHANGED <<closed, lock, todo, nextRes, rnd, ticksLeft, expire, stopSweep, stopTick>> /\ uCtr /\ uScale /\ uGhost
+  /\ UNCHANGED lateN
 
 (* i4: rp.resources <- wrapper *)
 I4(p, a) ==
@@ -358,6 +374,7 @@ I4(p, a) ==
           /\ IF cnt[p] > 1 THEN Goto(p, "i2") /\ UNCHANGED sweepsLeft ELSE EndSweep(p)
           /\ UNCHANGED panic
   /\ UNCHANGED <<closed, lock, todo, nextRes, old, tgt, rnd, ticksLeft, expire, stopSweep, stopTick, held, stale>> /\ uCtr
+  /\ UNCHANGED lateN
 
 -----------------------------------------------------------------------------------
 (* Close *)
@@ -367,12 +384,14 @@ K1(p, a) ==
   /\ p = "closer" /\ pc[p] = "k1" /\ a = 0 /\ pc["sweep"] \in {"i0", "done"}
   /\ stopSweep' = TRUE /\ Goto(p, "k2")
   /\ UNCHANGED <<ch, closed, lock, todo, nextRes, slot, rnd, sweepsLeft, ticksLeft, expire, stopTick>> /\ uCtr /\ uScale /\ uGhost
+  /\ UNCHANGED lateN
 
 (* k2: rp.capTimer.Stop()  -- waits for a running tick (not for the goroutine a tick spawned); then ScaleCapacity(0) *)
 K2(p, a) ==
   /\ p = "closer" /\ pc[p] = "k2" /\ a = 0 /\ pc["tick"] \in {"t0", "done"}
   /\ stopTick' = TRUE /\ tgt' = [tgt EXCEPT ![p] = 0] /\ Goto(p, "s1")
   /\ UNCHANGED <<ch, closed, lock, todo, nextRes, slot, old, cnt, rnd, sweepsLeft, ticksLeft, expire, stopSweep>> /\ uCtr /\ uGhost
+  /\ UNCHANGED lateN
 
 -----------------------------------------------------------------------------------
 Step(p, a) ==
@@ -383,49 +402,52 @@ Step(p, a) ==
   \/ T0(p, a) \/ T1(p, a) \/ T2(p, a) \/ T3(p, a) \/ W1(p, a) \/ W2(p, a)
   \/ I0(p, a) \/ I1(p, a) \/ I2(p, a) \/ I4(p, a)
   \/ K1(p, a) \/ K2(p, a)
+  \/ F1(p, a)
 
 Finished(p) == \/ pc[p] \in {"done", "dead", "off"}
+               \/ p = "factory"
                \/ p = "tick" /\ pc[p] = "t0"
                \/ p = "sweep" /\ pc[p] = "i0"
 Quiescent == \A p \in Procs : Finished(p)
 
 (* no operation in progress and none can start: terminal states stutter so that CHECK_DEADLOCK finds real blocking *)
 Terminated == /\ Quiescent
-              /\ (pc["tick"] = "t0" => stopTick) /\ (pc["sweep"] = "i0" => stopSweep)
+              /\ (pc["tick"] = "t0" => stopTick) /\ (pc["sweep"] = "i0" => stopSweep) /\ lateN = 0
               /\ UNCHANGED vars
 
 (* Next is Step over all processes, written action by action so that TLC's coverage names every label *)
-Next == \/ \E p \in Clients, a \in 0..1 : G1(p, a)
-        \/ \E p \in Clients, a \in 0..1 : G2(p, a)
-        \/ \E p \in Clients, a \in 0..1 : G3(p, a)
-        \/ \E p \in Clients, a \in 0..1 : G4(p, a)
-        \/ \E p \in Clients, a \in 0..1 : G5(p, a)
-        \/ \E p \in Clients, a \in 0..1 : G6(p, a)
-        \/ \E p \in Clients, a \in 0..1 : G7(p, a)
-        \/ \E p \in Clients, a \in 0..1 : G9(p, a)
-        \/ \E p \in Clients, a \in 0..1 : G10(p, a)
-        \/ \E p \in Clients, a \in 0..1 : G12(p, a)
-        \/ \E p \in Clients, a \in 0..1 : P2(p, a)
-        \/ \E p \in Clients, a \in 0..1 : P3(p, a)
-        \/ \E p \in Scalers, a \in 0..1 : S1(p, a)
-        \/ \E p \in Scalers, a \in 0..1 : S2(p, a)
-        \/ \E p \in Scalers, a \in 0..1 : S3(p, a)
-        \/ \E p \in Scalers, a \in 0..1 : S4(p, a)
-        \/ \E p \in Scalers, a \in 0..1 : S5(p, a)
-        \/ \E p \in Procs, a \in 0..1 : C1(p, a)
-        \/ \E p \in Procs, a \in 0..1 : C2(p, a)
-        \/ \E p \in Procs, a \in 0..1 : T0(p, a)
-        \/ \E p \in Procs, a \in 0..1 : T1(p, a)
-        \/ \E p \in Procs, a \in 0..1 : T2(p, a)
-        \/ \E p \in Procs, a \in 0..1 : T3(p, a)
-        \/ \E p \in Procs, a \in 0..1 : W1(p, a)
-        \/ \E p \in Procs, a \in 0..1 : W2(p, a)
-        \/ \E p \in Procs, a \in 0..1 : I0(p, a)
-        \/ \E p \in Procs, a \in 0..1 : I1(p, a)
-        \/ \E p \in Procs, a \in 0..1 : I2(p, a)
-        \/ \E p \in Procs, a \in 0..1 : I4(p, a)
-        \/ \E p \in Procs, a \in 0..1 : K1(p, a)
-        \/ \E p \in Procs, a \in 0..1 : K2(p, a)
+Next == \/ \E p \in Clients, a \in 0..2 : G1(p, a)
+        \/ \E p \in Clients, a \in 0..2 : G2(p, a)
+        \/ \E p \in Clients, a \in 0..2 : G3(p, a)
+        \/ \E p \in Clients, a \in 0..2 : G4(p, a)
+        \/ \E p \in Clients, a \in 0..2 : G5(p, a)
+        \/ \E p \in Clients, a \in 0..2 : G6(p, a)
+        \/ \E p \in Clients, a \in 0..2 : G7(p, a)
+        \/ \E p \in Clients, a \in 0..2 : G9(p, a)
+        \/ \E p \in Clients, a \in 0..2 : G10(p, a)
+        \/ \E p \in Clients, a \in 0..2 : G12(p, a)
+        \/ \E p \in Clients, a \in 0..2 : P2(p, a)
+        \/ \E p \in Clients, a \in 0..2 : P3(p, a)
+        \/ \E p \in Scalers, a \in 0..2 : S1(p, a)
+        \/ \E p \in Scalers, a \in 0..2 : S2(p, a)
+        \/ \E p \in Scalers, a \in 0..2 : S3(p, a)
+        \/ \E p \in Scalers, a \in 0..2 : S4(p, a)
+        \/ \E p \in Scalers, a \in 0..2 : S5(p, a)
+        \/ \E p \in Procs, a \in 0..2 : C1(p, a)
+        \/ \E p \in Procs, a \in 0..2 : C2(p, a)
+        \/ \E p \in Procs, a \in 0..2 : T0(p, a)
+        \/ \E p \in Procs, a \in 0..2 : T1(p, a)
+        \/ \E p \in Procs, a \in 0..2 : T2(p, a)
+        \/ \E p \in Procs, a \in 0..2 : T3(p, a)
+        \/ \E p \in Procs, a \in 0..2 : W1(p, a)
+        \/ \E p \in Procs, a \in 0..2 : W2(p, a)
+        \/ \E p \in Procs, a \in 0..2 : I0(p, a)
+        \/ \E p \in Procs, a \in 0..2 : I1(p, a)
+        \/ \E p \in Procs, a \in 0..2 : I2(p, a)
+        \/ \E p \in Procs, a \in 0..2 : I4(p, a)
+        \/ \E p \in Procs, a \in 0..2 : K1(p, a)
+        \/ \E p \in Procs, a \in 0..2 : K2(p, a)
+        \/ \E p \in Procs, a \in 0..2 : F1(p, a)
         \/ Terminated
 Spec == Init /\ [][Next]_vars
 
